@@ -289,4 +289,140 @@ theorem sgn_zero {i : Int} : sgn i = 0 ↔ i = 0 := by
   unfold sgn; repeat' split
   all_goals omega
 
+/-! ### real-number keys: `iwafcmp` with the fraction value abstracted -/
+
+/-- what the comparator needs of the fraction order: a strict weak order (every strict linear
+    order is one; `lt` on the long doubles the C code accumulates is one, whatever the rounding). -/
+structure StrictWeak {α : Type} (lt : α → α → Bool) : Prop where
+  irrefl : ∀ x, lt x x = false
+  trans : ∀ x y z, lt x y = true → lt y z = true → lt x z = true
+  negtrans : ∀ x y z, lt x z = true → lt x y = true ∨ lt y z = true
+
+/-- a strict linear order (irreflexive, transitive, trichotomous) is a strict weak order -/
+theorem StrictWeak.of_linear {α : Type} (lt : α → α → Bool) (irrefl : ∀ x, lt x x = false)
+    (trans : ∀ x y z, lt x y = true → lt y z = true → lt x z = true)
+    (tri : ∀ x y, lt x y = true ∨ x = y ∨ lt y x = true) : StrictWeak lt := by
+  refine ⟨irrefl, trans, ?_⟩
+  intro x y z hxz
+  rcases tri x y with h | h | h
+  · exact Or.inl h
+  · subst h; exact Or.inr hxz
+  · exact Or.inr (trans _ _ _ h hxz)
+
+/-- signed integer part seen by `iwafcmp` -/
+def afI (a : Bytes) : Int := (intPart a).1 * ((intPart a).2.1 : Int)
+
+/-- fraction value seen by `iwafcmp` -/
+def afF {α : Type} (zero : α) (frac : Int → List Nat → α) (a : Bytes) : α :=
+  if hasFrac (intPart a).2.2 then frac (intPart a).1 (fracDigits (intPart a).2.2) else zero
+
+/-- `iwafcmp` is the lexicographic product of: integer part, fraction value, bytes -/
+theorem afcmpWith_eq {α : Type} (lt : α → α → Bool) (zero : α) (frac : Int → List Nat → α)
+    (hirr : ∀ x, lt x x = false) (a b : Bytes) :
+    afcmpWith lt zero frac a b =
+      if afI a < afI b then -1 else if afI a > afI b then 1
+      else if lt (afF zero frac a) (afF zero frac b) = true then -1
+      else if lt (afF zero frac b) (afF zero frac a) = true then 1 else tieBreak a b := by
+  unfold afcmpWith afI afF
+  generalize intPart a = x
+  generalize intPart b = y
+  obtain ⟨sa, na, ra⟩ := x
+  obtain ⟨sb, nb, rb⟩ := y
+  simp only
+  cases hasFrac ra <;> cases hasFrac rb <;> simp [hirr]
+
+theorem afcmpWith_neg_iff {α : Type} (lt : α → α → Bool) (zero : α) (frac : Int → List Nat → α)
+    (hirr : ∀ x, lt x x = false) (a b : Bytes) :
+    afcmpWith lt zero frac a b < 0 ↔
+      afI a < afI b ∨ (afI a = afI b ∧ (lt (afF zero frac a) (afF zero frac b) = true ∨
+        (lt (afF zero frac a) (afF zero frac b) = false ∧ lt (afF zero frac b) (afF zero frac a) = false
+          ∧ tieBreak a b < 0))) := by
+  rw [afcmpWith_eq lt zero frac hirr]
+  cases h1 : lt (afF zero frac a) (afF zero frac b) <;> cases h2 : lt (afF zero frac b) (afF zero frac a)
+  all_goals simp
+  all_goals repeat' split
+  all_goals omega
+
+theorem afcmpWith_antisymm {α : Type} (lt : α → α → Bool) (zero : α) (frac : Int → List Nat → α)
+    (h : StrictWeak lt) (a b : Bytes) :
+    sgn (afcmpWith lt zero frac a b) = - sgn (afcmpWith lt zero frac b a) := by
+  rw [afcmpWith_eq lt zero frac h.irrefl, afcmpWith_eq lt zero frac h.irrefl]
+  have hasym : lt (afF zero frac a) (afF zero frac b) = true → lt (afF zero frac b) (afF zero frac a) = true → False := by
+    intro h1 h2
+    have := h.trans _ _ _ h1 h2
+    rw [h.irrefl] at this; cases this
+  have ht := tieBreak_antisymm a b
+  cases h1 : lt (afF zero frac a) (afF zero frac b) <;> cases h2 : lt (afF zero frac b) (afF zero frac a)
+  · simp only [Bool.false_eq_true, if_false]
+    by_cases c1 : afI a < afI b
+    · have : ¬ afI b < afI a := by omega
+      have : afI b > afI a := by omega
+      simp [*, sgn]
+    · by_cases c2 : afI a > afI b
+      · have : afI b < afI a := by omega
+        simp [*, sgn]
+      · have : ¬ afI b < afI a := by omega
+        have : ¬ afI b > afI a := by omega
+        simp only [if_false, *]
+  · simp only [Bool.false_eq_true, if_false, if_true]
+    unfold sgn
+    repeat' split
+    all_goals omega
+  · simp only [Bool.false_eq_true, if_false, if_true]
+    unfold sgn
+    repeat' split
+    all_goals omega
+  · exact absurd h2 (fun h2 => hasym h1 h2)
+
+theorem afcmpWith_eq_zero {α : Type} (lt : α → α → Bool) (zero : α) (frac : Int → List Nat → α)
+    (h : StrictWeak lt) (a b : Bytes) : afcmpWith lt zero frac a b = 0 ↔ a = b := by
+  rw [afcmpWith_eq lt zero frac h.irrefl]
+  constructor
+  · intro h0
+    repeat' split at h0
+    all_goals first | omega | exact tieBreak_eq_zero h0
+  · rintro rfl
+    simp [h.irrefl, tieBreak_self]
+
+theorem afcmpWith_trans {α : Type} (lt : α → α → Bool) (zero : α) (frac : Int → List Nat → α)
+    (h : StrictWeak lt) (a b c : Bytes)
+    (h1 : afcmpWith lt zero frac a b < 0) (h2 : afcmpWith lt zero frac b c < 0) :
+    afcmpWith lt zero frac a c < 0 := by
+  rw [afcmpWith_neg_iff lt zero frac h.irrefl] at *
+  rcases h1 with h1 | ⟨e1, h1⟩
+  · rcases h2 with h2 | ⟨e2, h2⟩
+    · exact Or.inl (by omega)
+    · exact Or.inl (by omega)
+  · rcases h2 with h2 | ⟨e2, h2⟩
+    · exact Or.inl (by omega)
+    · refine Or.inr ⟨by omega, ?_⟩
+      generalize afF zero frac a = fa at *
+      generalize afF zero frac b = fb at *
+      generalize afF zero frac c = fc at *
+      rcases h1 with h1 | ⟨n1, n1', t1⟩
+      · rcases h2 with h2 | ⟨n2, n2', t2⟩
+        · exact Or.inl (h.trans _ _ _ h1 h2)
+        · rcases h.negtrans fa fc fb h1 with h3 | h3
+          · exact Or.inl h3
+          · rw [n2'] at h3; cases h3
+      · rcases h2 with h2 | ⟨n2, n2', t2⟩
+        · rcases h.negtrans fb fa fc h2 with h3 | h3
+          · rw [n1'] at h3; cases h3
+          · exact Or.inl h3
+        · refine Or.inr ⟨?_, ?_, ?_⟩
+          · cases h3 : lt fa fc
+            · rfl
+            · rcases h.negtrans fa fb fc h3 with h4 | h4
+              · rw [n1] at h4; cases h4
+              · rw [n2] at h4; cases h4
+          · cases h3 : lt fc fa
+            · rfl
+            · rcases h.negtrans fc fb fa h3 with h4 | h4
+              · rw [n2'] at h4; cases h4
+              · rw [n1'] at h4; cases h4
+          · have a1 := (tieBreak_neg a b).1.mp t1
+            have a2 := (tieBreak_neg b c).1.mp t2
+            have a3 := tieBreak_trans a2 a1
+            exact (tieBreak_neg a c).1.mpr a3
+
 end IwModel.Cmp
